@@ -120,6 +120,9 @@ def main():
     if a.target != "all":
         ms = [m for m in ms if m["id"] == a.target or m["property"] == a.target]
     for m in ms:
+        if m.get("equivalent") and a.target in ("all", m["property"]):
+            print("%-34s skipped: %s" % (m["id"], m["equivalent"]), flush=True)
+            continue
         props = a.prop.split(",") if a.prop else [m["property"]]
         if not os.path.exists(os.path.join(VERIF, "checks", props[0].lower() + ".py")):
             continue
